@@ -1084,12 +1084,23 @@ static void fixed(void) {
 }
 
 /* the same mutator inside a worker thread: its own collector, its own stack bottom, its own thread-local storage */
-static vh_rng* wt_rng; static int wt_nops, wt_bias;
+static vh_rng* wt_rng; static int wt_nops, wt_bias; static var wt_gift;
 static var worker_case(var args) {
   (void)args;
   struct GC* main_gc = gc;
   mo_thread_index = 1;
   gc = current(GC);
+  if (wt_gift) {
+    /* the very first thing this thread's collector is asked: to remove an object it never registered (one the parent
+       made outside any collector and handed over).  The registry has never held anything at this point. */
+    var g = wt_gift; wt_gift = NULL;
+    bool fresh = gc->nslots == 0 && gc->nitems == 0;
+    vh_eval();
+    if (mem(gc, g)) { vh_violation(K("unregistered-object-reported-registered"), "a collector that registered nothing reports a foreign object as its own"); }
+    del(g);
+    if (gc->nitems != 0) { vh_violation(K("count-changed-by-removing-an-unregistered-object"), "registry count is %zu after del of an object that was never registered, in a collector that held nothing", (size_t)gc->nitems); }
+    if (fresh) { vh_count("removals_asked_of_a_registry_that_never_held_anything"); }
+  }
   run_random_case(wt_rng, wt_nops, wt_bias);
   gc = main_gc;
   return NULL;
@@ -1116,6 +1127,7 @@ static void case_random(vh_rng* r, long index) {
     }
     var fn = $(Function, worker_case);
     var t = new_raw(Thread, fn);
+    wt_gift = (index % 10 == 4) ? new_raw(Int, $I(index)) : NULL;
     call(t); join(t);
     del_raw(t);
     if (check_c17) {
